@@ -15,4 +15,6 @@ f15_1:
   call f2_0
   call f15_0
   call f9_0
+  mov wvsv1@GOTPCREL(%rip),%rax
+  mov wvsv0(%rip),%rax
   ret
